@@ -22,13 +22,9 @@ pub fn module() -> PropModule {
 
 // ------------------------------------------------------------------ dump
 
-/// `gal::gstr`, with byte lists as `nat` numerals (this stage's case files keep nat_scope)
+/// text as a Coq string (`gal::gstr` prints control bytes as an `N` byte list)
 fn gtext(s: &str) -> String {
-    let t = gstr(s);
-    match t.strip_prefix("(sb [") {
-        Some(rest) => format!("(sbn [{}", rest),
-        None => t,
-    }
+    gstr(s)
 }
 
 fn gpos(p: &Position) -> String {
